@@ -3,7 +3,12 @@ package main
 import (
 	"context"
 	"fmt"
+	"strings"
 	"sync"
+	"time"
+
+	"github.com/smart-core-os/sc-api/go/traits"
+	"google.golang.org/protobuf/types/known/timestamppb"
 
 	"google.golang.org/protobuf/proto"
 
@@ -147,4 +152,64 @@ func streamLossy(r *vk.Run) {
 		}
 	}
 	r.Require("stream-lossy-scenarios", 8)
+}
+
+// noDuplicatesOnChangeMessages: WithNoDuplicates is documented as WithMessageEquivalence(cmp.Equal()), and the default
+// comparer does not count the change_time of a Pull response's Change message. A resource holding such Change
+// messages, configured through the shortcut, therefore does not deliver a write that differs from what the
+// subscriber holds in change_time only, and does deliver one that differs in anything else.
+func noDuplicatesOnChangeMessages(r *vk.Run) {
+	mk := func(sec int64, on traits.OnOff_State) *traits.PullOnOffResponse_Change {
+		return &traits.PullOnOffResponse_Change{Name: "dev", ChangeTime: timestamppb.New(time.Unix(sec, 0)), OnOff: &traits.OnOff{State: on}}
+	}
+	for i, kind := range []string{"value", "collection"} {
+		if !r.Mine(i) {
+			continue
+		}
+		ctx, cancel := context.WithCancel(context.Background())
+		var mu sync.Mutex
+		var got []string
+		note := func(m proto.Message) {
+			c, _ := m.(*traits.PullOnOffResponse_Change)
+			mu.Lock()
+			got = append(got, fmt.Sprintf("%s@%d", c.GetOnOff().GetState(), c.GetChangeTime().GetSeconds()))
+			mu.Unlock()
+		}
+		var write func(m proto.Message)
+		if kind == "value" {
+			v := resource.NewValue(resource.WithNoDuplicates(), resource.WithInitialValue(mk(100, traits.OnOff_ON)))
+			ch := v.Pull(ctx, resource.WithBackpressure(true))
+			go func() {
+				for e := range ch {
+					note(e.Value)
+				}
+			}()
+			write = func(m proto.Message) { v.Set(m) }
+		} else {
+			col := resource.NewCollection(resource.WithNoDuplicates(), resource.WithInitialRecord("x", mk(100, traits.OnOff_ON)))
+			ch := col.Pull(ctx, resource.WithBackpressure(true))
+			go func() {
+				for e := range ch {
+					note(e.NewValue)
+				}
+			}()
+			write = func(m proto.Message) { col.Update("x", m) }
+		}
+		vk.Quiesce()
+		for _, w := range []proto.Message{mk(200, traits.OnOff_ON), mk(300, traits.OnOff_ON), mk(400, traits.OnOff_OFF), mk(500, traits.OnOff_OFF)} {
+			write(w)
+			vk.Quiesce()
+		}
+		r.Eval(1)
+		r.Count("no-duplicates-on-change-messages", 1)
+		r.Distinct("nodup-change|" + kind)
+		mu.Lock()
+		have := strings.Join(got, " ")
+		mu.Unlock()
+		if want := "ON@100 OFF@400"; have != want {
+			r.Violation("C16/stream/no-duplicates-shortcut/change-time/"+kind, fmt.Sprintf("a %s configured with WithNoDuplicates holds Pull-response Change messages; seed ON@100, then writes ON@200, ON@300 (differ in change_time only), OFF@400, OFF@500: the subscriber received [%s], want [%s]", kind, have, want), map[string]any{"kind": kind})
+		}
+		cancel()
+		vk.Quiesce()
+	}
 }
